@@ -120,6 +120,29 @@ def random_dlist(rng, flavor, nh, nn, nops):
     return lines
 
 
+def big_list_script(rng, flavor, nn):
+    """one head and nn > 1000 nodes: build the list, then pops / unlinks / clear (judged by ListsBigTrace.tla)"""
+    lines = ["R %s 1 %d" % (flavor, nn)]
+    back, front = ("MovePrev", "MoveNext") if flavor == "cxx" else ("AddPrev", "AddNext")
+    if flavor != "cxx":
+        lines.append("CInit 0")
+    order = list(range(1, nn + 1)); rng.shuffle(order)
+    lst = []
+    for i, n in enumerate(order):
+        if i % 7 == 3:
+            lines.append("%s %d 0" % (front, n)); lst.insert(0, n)
+        else:
+            lines.append("%s %d 0" % (back, n)); lst.append(n)
+    for _ in range(30):
+        r = rng.random()
+        if flavor == "cxx" and r < 0.3: lines.append("PopFront 0"); lst[:1] = []
+        elif flavor == "cxx" and r < 0.6: lines.append("PopBack 0"); lst[-1:] = []
+        elif lst:
+            n = rng.choice(lst); lines.append(("Unlink %d" if flavor == "cxx" else "DelInit %d") % n); lst.remove(n)
+    if flavor == "cxx": lines.append("Clear 0")
+    return lines
+
+
 def random_sh(rng, kind, nn, nops):
     lines = ["R %s %d" % (kind, nn)]
     lst = []; fresh = set(range(1, nn + 1))
@@ -174,6 +197,14 @@ def check(ctx):
     bad = ctx.judge("ListsTrace", [t1, t2])
     for b in bad: b["driver"] = "drv_lists"
     ctx.report(bad)
+    # long lists (more than a thousand nodes): reference = the sequence of nodes, judged by ListsBigTrace.tla
+    big = []
+    for i, nn in enumerate([1100, 1500] + ([1001, 1999] if ctx.thorough else [])):
+        big += big_list_script(ctx.rng, "cxx" if i % 2 == 0 else "c", nn)
+    tb = ctx.drive(drv, big, "lists_big", lines_per_proc=500)
+    bad = ctx.judge("ListsBigTrace", [tb], shards=4)
+    for b in bad: b["driver"] = "drv_lists"; b["script"] = None
+    ctx.report(bad)
     t3 = ctx.drive(drvs, script2 + rnd2, "shlist")
     bad = ctx.judge("SHListTrace", [t3])
     for b in bad: b["driver"] = "drv_shlist"
@@ -183,7 +214,7 @@ def check(ctx):
         "C++ move of a node next to itself is modelled as the library documents it (unlink first): the node ends unlinked",
         "destroyed nodes keep their storage so dangling links stay observable; ASan observes the rest",
     ]
-    return ctx.finish(rule="every edge of the TLC state graphs (ListsGraph.cfg: 2 heads x 3 nodes, both flavours; SHListGraph.cfg) replayed on the real lists + seeded random scripts up to 3 heads x 8 nodes; every event judged by ListsTrace/SHListTrace")
+    return ctx.finish(rule="every edge of the TLC state graphs (ListsGraph.cfg: 2 heads x 3 nodes, both flavours; SHListGraph.cfg) replayed on the real lists + seeded random scripts up to 3 heads x 8 nodes + lists of 1100 and 1500 nodes (ListsBigTrace); every event judged by ListsTrace/ListsBigTrace/SHListTrace")
 
 
 def replay(ctx, path):
